@@ -57,8 +57,14 @@ fn cli_styles() -> clap::builder::Styles {
 }
 
 /// Returns true if a primary location of the report corresponds to a file
-/// specified on the command line by the user.
+/// specified on the command line by the user, or if the report is an error
+/// without a location.
 fn filter_by_file(report: &Report, user_inputs: &HashSet<FileID>) -> bool {
+    if report.primary_file_ids().is_empty() {
+        // Errors without a source location (e.g. a file that could not be
+        // opened) concern the run as a whole and must not be hidden.
+        return report.category() == &MessageCategory::Error;
+    }
     report.primary_file_ids().iter().any(|file_id| user_inputs.contains(file_id))
 }
 
